@@ -40,7 +40,7 @@ PJ = [(0.0, 1.0), (0.3, 1.1), (-0.3, 0.9)]
 
 def BOUNDS(tier):
     n = len(zoo.f_lattice(0, tier))
-    return {"F_lattice_points": n, "directions": 9, "pJ_lattice": PJ, "fd_step": H}
+    return {"F_lattice_points": n, "directions": 9, "pJ_lattice": PJ, "fd_step": H, "call_variants": ["out= fresh / previous / garbage", "Fortran-ordered inputs", "second call with the same arrays", "single item vs batch"]}
 
 
 def plan(tier, seed):
